@@ -88,9 +88,9 @@ def finish(run, t0, seed=0, explanation='', assumptions=()):
     viol_lines = []
     for inst in run.insts:
         if inst.status == VIOLATION:
-            k = next((k for k in known_here if k['rule'] == inst.rule and k['construct'] == inst.construct), None)
+            k = next((k for k in known_here if k['rule'] == inst.rule and k['construct'] == inst.construct and k.get('instance', inst.instance) == inst.instance), None)
             if k is not None:
-                matched_known.add((k['rule'], k['construct']))
+                matched_known.add((k['rule'], k['construct'], k.get('instance')))
                 printed_known.append('KNOWN-FINDING: property=%s %s [%s %s] %s' % (prop, k.get('what', inst.msg), inst.rule, inst.construct, inst.loc))
                 continue
             nviol += 1
@@ -104,7 +104,7 @@ def finish(run, t0, seed=0, explanation='', assumptions=()):
     for line in sorted(set(printed_known)):
         print(line)
     for k in known_here:
-        if (k['rule'], k['construct']) not in matched_known:
+        if (k['rule'], k['construct'], k.get('instance')) not in matched_known:
             print('STALE-KNOWN-FINDING: property=%s rule=%s construct=%s no longer reported' % (prop, k['rule'], k['construct']))
     for line in viol_lines:
         print(line)
